@@ -99,16 +99,27 @@ def batch_run(ctx, report, facts, config, rule="C04.FANOUT"):
     # blanket RunNow::run_now: one fetch, moved into the single run
     b = F.blanket(facts, A.T_RUNNOW, "run_now")
     report.touched(b, config)
-    bt = prog.bt(b)
-    fetches = [bb for bb, t in b.normal_calls() if Callee(t["func"]).name == "fetch" and Callee(t["func"]).trait == A.T_DYNSYSDATA]
-    runs = [bb for bb, t in b.normal_calls() if Callee(t["func"]).name == "run" and Callee(t["func"]).trait == A.T_SYSTEM]
-    ok = len(fetches) == 1 and len(runs) == 1 and bt.cfg.count(lambda x: x in fetches) == (1, 1)
-    detail = "%d fetch / %d run" % (len(fetches), len(runs))
-    if ok:
-        args = bt.call_args(runs[0])
-        op = b.blocks[runs[0]]["term"]["args"][1]
-        ok = args[1] == ("call", fetches[0], args[1][2]) and op["k"] == "move" and args[0] == SELF
-        detail = "self.run(fetch(..)) with the fetched data moved into run" if ok else "run does not receive the fetched data by move"
+    ev, ends = Q.sem(ctx, facts, b)
+    rets = Q.returns(ends)
+    ok = bool(rets)
+    detail = "self.run(fetch(&self.accessor(), world)): one fetch, handed to the single run"
+    for e in rets:
+        fetches = Q.calls_in(e.path.events, lambda c: c.name == "fetch" and c.trait == A.T_DYNSYSDATA, deep=True)
+        runs = Q.calls_in(e.path.events, lambda c: c.name == "run" and c.trait == A.T_SYSTEM, deep=True)
+        if len(fetches) != 1 or len(runs) != 1 or Q.all_loops([e]):
+            ok = False
+            detail = "%d fetch / %d run on a way through" % (len(fetches), len(runs))
+            continue
+        f, r = fetches[0], runs[0]
+        acc = Q.strip(ev, f[3][0]) if f[3] else None
+        while isinstance(acc, tuple) and acc and acc[0] in ("field", "variant"):
+            acc = Q.strip(ev, acc[1])   # whichever way the AccessorCow is looked into
+        if not (len(r[3]) == 2 and Q.strip(ev, r[3][0]) == ("param", 1) and r[3][1] == f[4]):
+            ok = False
+            detail = "run does not receive the fetched data (or does not run the system itself)"
+        elif not (Q.is_call(ev, acc, "accessor") and Q.callee_of(ev, acc).trait == A.T_SYSTEM and Q.strip(ev, acc[2][0]) == ("param", 1) and len(f[3]) == 2 and Q.strip(ev, f[3][1]) == ("param", 2)):
+            ok = False
+            detail = "the data is not fetched with the system's own accessor from the world it is given"
     report.ob(rule, "RUN/<T as RunNow>::run_now/fetch-run", ok, detail, site=b.loc(), config=config)
 
 
